@@ -308,6 +308,8 @@ class NamedQubit:
                 from_size = int(alias_from.size)
             except JaqalError:
                 return
+            if isinstance(alias_index, float) and not alias_index.is_integer():
+                raise JaqalError(f"Cannot index {alias_from.name} with {alias_index}.")
             if alias_index >= from_size or alias_index < 0:
                 raise JaqalError("Index out of range.")
 
